@@ -19,6 +19,13 @@ CHECKS = {
     'C02': ('symbolic execution of the real UBI/U/B conversion functions on a unit-quaternion rotation and symbolic cell; path exploration of ub_to_u_b under a QR contract stub; identities decided by z3/cvc5 (QF_NRA)',
             'Bounded model checking over exact reals: UBI.(U.B.h)=kappa.h, UBI rows = lattice vectors, ubi_to_cell/ubi_to_u/ubi_to_rod/ubi_to_u_b round trips for all U in SO(3) and all valid cells; '
             'ub_to_u_b for every UB=U0.B0 and every sign pattern a QR routine may return (8 paths).', 'numpy.linalg.qr is replaced by its mathematical contract (over-approximating LAPACK sign choices).', '6/C02'),
+    'C13': ('symbolic execution of the real strain functions on symbolic cells (second cell = strained lattice) and a unit-quaternion rotation; rational-function identities decided by z3/cvc5 (QF_NRA)',
+            'Bounded model checking over exact reals: both strain pairs are mutual inverses, equal the harness oracle sym(B0.inv(B))-I resp. sym(A.inv(A0))-I, '
+            'epsilon_to_b yields a B matrix (upper triangular, positive diagonal for |eps|<=0.1), ubi_to_u_and_eps returns (U, eps) for the module\'s own UBI.',
+            'Known finding (pinned): tools.ubi_to_u_and_eps returns 2*pi*(I+eps)-I.', '6/C13'),
+    'C16': ('symbolic execution of the real FormFactor on a symbolic s; transcendental exp decided by cvc5 (QF_NRAT) for every real s in [0,2]',
+            'Bounded model checking: per element 4 obligations (formula equals live table, |f(0)-Z|<=0.1, f>0 on [0,2], df/ds<0 on (0,2]) decided for all real s, '
+            'not on a grid; all 94 table entries.', '', '6/C16'),
 }
 NA_REASON = {}
 
